@@ -2,7 +2,7 @@ import GV.Lib.Line
 import GV.Model.ValueConservation
 /-
   op:  vc <era> <valid> <kd> <pd> <dd> <fee> <don> item*      (see harness/c27.go)
-  out: vc=<ok|vnc|baddep> bad=<0|1> dep=<0|1>  |  decode-err
+  out: pure=<1|0> vc=<ok|vnc|baddep> bad=<0|1> dep=<0|1>  |  decode-err
 -/
 namespace GV.Drv.C27
 open GV.Line GV.Model.ValueConservation
@@ -48,7 +48,8 @@ def parseCert (p : List String) : Option Cert :=
   | ["pret"] => some .pret | ["vdeleg"] => some .vdeleg
   | ["preg", st, id] => do
     let id ← parseNat? id
-    if st = "n" then some (.preg true id) else if st = "o" then some (.preg false id) else none
+    if st = "n" then some (.preg true id) else if st = "o" then some (.preg false id)
+    else if st = "r" then some (.pregRetiring id) else none
   | ["reg", a] => (parseNat? a).map .reg
   | ["srd", a] => (parseNat? a).map .srd
   | ["vrd", a] => (parseNat? a).map .vrd
@@ -96,7 +97,7 @@ def parseItems : List String → Acc → Option Acc
     | _ => none
 
 def legacy : Cert → Bool
-  | .sreg | .sdereg | .sdeleg | .pret | .preg _ _ => true
+  | .sreg | .sdereg | .sdeleg | .pret | .preg _ _ | .pregRetiring _ => true
   | _ => false
 
 def handle (line : String) : GV.Line.Out :=
@@ -122,13 +123,15 @@ def handle (line : String) : GV.Line.Out :=
       else
       let v := match rule t with
         | .ok => "ok" | .notConserved => "vnc" | .badDeposit => "baddep"
-      let model := s!"vc={v} bad={boolStr (badInputs t)} dep={boolStr (certDepositsBad t)}"
+      -- the model is a pure function: a second validation gives the same verdict and
+      -- leaves every reported value unchanged (`pure=1`), which is what the op checks of the code
+      let model := s!"pure=1 vc={v} bad={boolStr (badInputs t)} dep={boolStr (certDepositsBad t)}"
       -- spec: the ledger formula. An unresolvable input must be rejected by some rule;
       -- otherwise a balance that is not conserved must be rejected by one of the rules.
       let spec :=
-        if badInputs t then "vc=ok bad=1*||vc=vnc bad=1*||vc=baddep bad=1*"
-        else if !specConserved t then "vc=vnc*||vc=baddep*||vc=ok bad=0 dep=1"
-        else "*"
+        if badInputs t then "pure=1 vc=ok bad=1*||pure=1 vc=vnc bad=1*||pure=1 vc=baddep bad=1*"
+        else if !specConserved t then "pure=1 vc=vnc*||pure=1 vc=baddep*||pure=1 vc=ok bad=0 dep=1"
+        else "pure=1 *"
       let cls :=
         if clsCertAmount t then "cert-amount"
         else if clsZeroPolicyMint t then "zero-policy-mint" else ""
